@@ -449,6 +449,10 @@ func init() {
 			}
 			r.AddSkel(skels[i], s)
 		}
+		// the same JSON array held as []byte and in other Go representations is a duplicate (symbolic element values)
+		cc.RunKernels(r, []*KernelCase{{Name: "unique-mixed-array-representations", Func: "VerifKernelUniqueMixedReps", Native: jsonschema.VerifKernelUniqueMixedReps,
+			Args: []ArgSpec{{Kind: "int", Lo: 0, Hi: 255}, {Kind: "int", Lo: 0, Hi: 255}}}})
+		r.Bounds = append(r.Bounds, "kernel: uniqueItems on [x, y] where x = []byte{a,b} and y the same array as []any / []int / []float64 / [2]uint8 / []uint8, a and b symbolic bytes: always a duplicate")
 		r.Bounds = append(r.Bounds,
 			"hash law: hashValue on two symbolic values with one symbolic seed; maphash modelled as a chain of uninterpreted mixing functions (one application per token written), so the query ranges over all hash functions and seeds: O-eq(x,y) => equal hashes",
 			"enum/const: listed values are symbolic JSON values (templates T(1,1,1), and T(1,1,2) on both sides for const), instance symbolic with symbolic representation",
@@ -662,6 +666,16 @@ func init() {
 		cc.RunValidateFamily(r, skels, VOptions{})
 		// (c) ApplyDefaults on arbitrary JSON-shaped instances
 		ds := FamilyDefaults(cc.Thorough())
+		for _, sk := range FamilyDefaults(cc.Thorough()) {
+			// the same with objects held in maps whose key type is a named string type
+			c := *sk
+			tm := *sk.Tm
+			tm.ContainerReps, tm.NamedKeyMapsOnly = true, true
+			tm.StrT, tm.KeyT = cc.P.NamedType("VerifStr"), cc.P.NamedType("VerifKey")
+			c.Tm = &tm
+			c.Name += "@namedkeys"
+			ds = append(ds, &c)
+		}
 		ds, dres := RunSkeletons(cc.P, ds, cc.Workers, cc.Timeout, func(w *Worker, sk *Skeleton) *SkelResult {
 			return w.RunDefaultsSkeleton(sk, "C10")
 		})
